@@ -494,7 +494,7 @@ func translateFields(fi *fileInfo, fd *ast.FuncDecl, sp exprSpec) (string, error
 	params := ""
 	for _, v := range sp.Vars {
 		vars[v[0]] = [2]string{v[1], v[2]}
-		if v[2] != "const" {
+		if v[2] != "const" && v[2] != "opaque" {
 			params += fmt.Sprintf(" (%s : %s)", v[1], v[2])
 		}
 	}
@@ -507,6 +507,12 @@ func translateFields(fi *fileInfo, fd *ast.FuncDecl, sp exprSpec) (string, error
 			return "", fmt.Errorf("literal at line %d has an element without a key", pos.Line)
 		}
 		key := printNode(fi.fset, kv.Key)
+		if v, ok := vars[printNode(fi.fset, kv.Value)]; ok && v[1] == "opaque" {
+			// a value the Lean side has no type for in Gen/Consts.lean (a whole struct, a payload): the key is listed with
+			// the parameter name it must be fed from, no definition is generated
+			keys = append(keys, key+"="+v[0])
+			continue
+		}
 		used := map[string]bool{}
 		lean, isBool, err := trExpr(fi.fset, kv.Value, vars, used)
 		if err != nil {
